@@ -62,7 +62,7 @@ def roundtrip(p):
                 opened.append((name, mode))
                 holder.closed = False
                 return holder
-            target, kw = ('x.parquet', dict(open_obj=wopen)) if bypath else (holder, {})
+            target, kw = ('/var/tmp/vp-c20-x.parquet', dict(open_obj=wopen)) if bypath else (holder, {})
             obs_ = D.src(rows).pipe(P.dump_to_file(target, FA.FSchema(['a', 'b']), batch_size=bs, **kw))
             for sub in (1, 2):
                 holder.rows = []
@@ -76,7 +76,7 @@ def roundtrip(p):
                     return fail(stage='dump_to_file', subscription=sub, rows=rows, dump_batch=bs, observed=written, writes=holder.writes, done=done, writer_closed=holder.writer_closed)
                 if not done[0][1] or done[0][3] != len(rows) or (bypath and not done[0][2]):
                     return fail(stage='dump_to_file', problem='completion signalled before the file was complete / closed', done=done, by_path=bypath)
-            if bypath and opened != [('x.parquet', 'wb')] * 2:
+            if bypath and opened != [('/var/tmp/vp-c20-x.parquet', 'wb')] * 2:
                 return fail(stage='dump_to_file', problem='open_obj protocol', opened=opened)
             f = holder
             if FA.UNMODELLED:
@@ -85,7 +85,7 @@ def roundtrip(p):
             # how the rows are grouped into record batches is not part of the statement (only what the file holds): f.writes is kept in failure details only
             got = []
             end = []
-            src_, kw2 = ('x.parquet', dict(open_obj=lambda name, mode='rb', **k: f)) if bypath else (f, {})
+            src_, kw2 = ('/var/tmp/vp-c20-x.parquet', dict(open_obj=lambda name, mode='rb', **k: f)) if bypath else (f, {})
             P.load_from_file(src_, batch_size=lb, **kw2).subscribe(on_next=got.append, on_error=lambda e: end.append(('ERR', repr(e))), on_completed=lambda: end.append('C'), scheduler=ImmediateScheduler())
             if FA.UNMODELLED:
                 from vp.harness import Inconclusive
